@@ -25,21 +25,25 @@ CONSTANTS
   InitReports,   \* set of records [local, ready, uploaded] (sets of weeks) that may pre-exist
   Starts,        \* set of <<day, tod>>: initial clock values
   ClockPoints,   \* set of <<day, tod>> the clock may advance to
-  SetModes,      \* arguments given to SetMode (valid and invalid)
+  SetModes,      \* words given to SetMode (valid and invalid)
+  SetPads,       \* paddings around the word (subset of Pads)
   SetDays,       \* dates given to SetMode
   Xs, Rates,     \* X of a run and SampleRate of the downloaded config, in 1/1024
   MaxRun, MaxSet, MaxEdit, MaxCollect, MaxAdv
 
-VARIABLES modeFile, day, tod,
+VARIABLES modeFile,
+          intent,      \* what the last accepted SetMode had to record (NoIntent after a manual edit)
+          day, tod,
           files,       \* function: count file [p, b, e] -> total counted in it
           local, ready, uploaded,   \* sets of weeks (a week is named by its end day)
           requests,    \* set of [wk, run]: reports posted to the server, by run number
           nRun, nSet, nEdit, nCollect, nAdv,
           init,        \* the initial observable state (never changes; lets a dumped state be replayed)
           last         \* the action that led here and its arguments
-vars == <<modeFile, day, tod, files, local, ready, uploaded, requests, nRun, nSet, nEdit, nCollect, nAdv, init, last>>
+vars == <<modeFile, intent, day, tod, files, local, ready, uploaded, requests, nRun, nSet, nEdit, nCollect, nAdv, init, last>>
 
 Init == /\ modeFile \in ModeFiles
+        /\ intent = NoIntent
         /\ \E s \in Starts : day = s[1] /\ tod = s[2]
         /\ \E fs \in InitFiles : files = [f \in fs |-> 1]
         /\ \E r \in InitReports : local = r.local /\ ready = r.ready /\ uploaded = r.uploaded
@@ -49,9 +53,9 @@ Init == /\ modeFile \in ModeFiles
                    local |-> local, ready |-> ready, uploaded |-> uploaded]
         /\ last = Act("init", "", 0, 0, TRUE)
 
-Cur == St(modeFile, day, tod, files, local, ready, uploaded, requests)
-Nxt == St(modeFile', day', tod', files', local', ready', uploaded', requests')
-Becomes(t) == /\ modeFile' = t.modeFile /\ day' = t.day /\ tod' = t.tod /\ files' = t.files
+Cur == St(modeFile, intent, day, tod, files, local, ready, uploaded, requests)
+Nxt == St(modeFile', intent', day', tod', files', local', ready', uploaded', requests')
+Becomes(t) == /\ modeFile' = t.modeFile /\ intent' = t.intent /\ day' = t.day /\ tod' = t.tod /\ files' = t.files
               /\ local' = t.local /\ ready' = t.ready /\ uploaded' = t.uploaded /\ requests' = t.requests
 
 Run(x, rate) ==
@@ -61,17 +65,19 @@ Run(x, rate) ==
     /\ last' = Act("run", "", x, rate, TRUE)
     /\ UNCHANGED <<nSet, nEdit, nCollect, nAdv, init>>
 
-SetMode(m, d) ==
+SetMode(m, p, d, acc) ==
     /\ nSet < MaxSet
     /\ (m \in ValidModes => modeFile.k # "unreadable")   \* the file cannot be written either: the property is silent
-    /\ Becomes(SetStep(Cur, m, d))
-    /\ last' = Act("set", m, d, 0, m \in ValidModes)
+    /\ ((p = "" \/ m \notin ValidModes) => acc)      \* one transition per distinct outcome
+    /\ Becomes(SetStep(Cur, m, p, d, acc))
+    /\ last' = ActP("set", m, p, d, 0, SetAccepted(m, p, acc))
     /\ nSet' = nSet + 1
     /\ UNCHANGED <<nRun, nEdit, nCollect, nAdv, init>>
 
 Edit(mf) ==
     /\ nEdit < MaxEdit /\ mf # modeFile
     /\ modeFile' = mf
+    /\ intent' = NoIntent
     /\ nEdit' = nEdit + 1
     /\ last' = Act("edit", "", 0, 0, TRUE)
     /\ UNCHANGED <<day, tod, files, local, ready, uploaded, requests, nRun, nSet, nCollect, nAdv, init>>
@@ -88,10 +94,10 @@ Advance(pt) ==
     /\ day' = pt[1] /\ tod' = pt[2]
     /\ nAdv' = nAdv + 1
     /\ last' = Act("advance", "", 0, 0, TRUE)
-    /\ UNCHANGED <<modeFile, files, local, ready, uploaded, requests, nRun, nSet, nEdit, nCollect, init>>
+    /\ UNCHANGED <<modeFile, intent, files, local, ready, uploaded, requests, nRun, nSet, nEdit, nCollect, init>>
 
 Next == \/ \E x \in Xs, rate \in Rates : Run(x, rate)
-        \/ \E m \in SetModes, d \in SetDays : SetMode(m, d)
+        \/ \E m \in SetModes, p \in SetPads, d \in SetDays, acc \in BOOLEAN : SetMode(m, p, d, acc)
         \/ \E mf \in ModeFiles : Edit(mf)
         \/ \E p \in Collectors : Collect(p)
         \/ \E pt \in ClockPoints : Advance(pt)
@@ -107,6 +113,7 @@ SetGet            == [][C_SetGet(last', Cur, Nxt)]_vars
 
 (* ---- state invariants (sanity of the model) --------------------------------- *)
 TypeOK == /\ IsModeFile(modeFile)
+          /\ (intent = NoIntent \/ intent = modeFile)     \* in the specification the file is what was asked for
           /\ \A f \in DOMAIN files : f.b < f.e /\ files[f] >= 1
           /\ \A r \in requests : r.run \in 1..nRun
 (* a week is posted at most once over a whole history, and what the server      *)
@@ -117,5 +124,5 @@ RequestsRecorded == \A r \in requests : r.wk \in uploaded /\ r.wk \notin ready
 (* may also send (opt-in date < begin < end = week <= today), so a run that the *)
 (* server acknowledges never leaves a new ready report behind                   *)
 NoNewReadyLeftBehind == [][ready' \subseteq ready]_vars
-View == <<modeFile, day, tod, files, local, ready, uploaded, requests, nRun, nSet, nEdit, nCollect, nAdv, init>>
+View == <<modeFile, intent, day, tod, files, local, ready, uploaded, requests, nRun, nSet, nEdit, nCollect, nAdv, init>>
 =============================================================================
